@@ -781,10 +781,18 @@ pub fn main_c01(tier_name: &str, seed: u64) -> i32 {
         }
         let mut g = Rng::derive(seed, prng::D_GEN, block);
         for _ in 0..tr.n_gen {
-            calls.push(gen::gen_call(&d, &mut g));
+            let c = gen::gen_call(&d, &mut g);
+            let sib = if g.chance(1, 5) { gen::sibling_call(&c, &mut g) } else { None };
+            calls.push(c);
+            if let Some(s) = sib {
+                calls.push(s);
+            }
         }
         for _ in 0..tr.n_corpus {
             calls.push(gen::corpus_call(&d, &mut g));
+        }
+        for _ in 0..(tr.n_gen / 25).max(4) {
+            calls.extend(gen::modifier_family(&mut g));
         }
         let sampled: Vec<usize> = (n_sweep..calls.len()).collect();
         let all: Vec<usize> = (0..calls.len()).collect();
